@@ -463,6 +463,15 @@ def search(ctx, why, budget=None):
             continue
         variants = [("none", None), ("scalar", [rng.randint(1, n)]), ("per", [rng.choice([None, rng.randint(1, n)]) for _ in range(n)]),
                     ("per", [None] * n)]
+        # deterministic (PRNG-independent) size specifications on the smallest graphs and on every graph with an isolated vertex:
+        # each constant size, and a size given for ONE vertex only (isolated vertices first)
+        deg = [sum(1 for a, b in edges if v in (a, b)) for v in range(n)]
+        if n <= 3 or 0 in deg:
+            variants += [("scalar", [k]) for k in range(1, n + 1)]
+            for v in sorted(range(n), key=lambda v: deg[v])[:2]:
+                for k in (1, 2):
+                    if k <= n:
+                        variants.append(("per", [k if u == v else None for u in range(n)]))
         for kind, sizes in variants:
             key = "groups:" + kind
             if key not in found:
